@@ -13,15 +13,20 @@ mkdir -p $DET
 ids="$*"
 [ -z "$ids" ] && ids=$(ls /verif/seeded | grep '^C' | tr '\n' ' ')
 out=/verif/seeded/REGRESSION.txt
-echo "# detection of every seeded change by the quick tier of the check of its own property (verif $(git -C /verif rev-parse --short HEAD), repo $(git -C /repo rev-parse --short HEAD))" > $out
+# APPEND=1: keep the existing file and add the given ids (checks only ever grow, so older lines stay valid)
+if [ "${APPEND:-0}" = "1" ]; then
+  echo "# appended: (verif $(git -C /verif rev-parse --short HEAD), repo $(git -C /repo rev-parse --short HEAD))" >> $out
+else
+  echo "# detection of every seeded change by the quick tier of the check of its own property (verif $(git -C /verif rev-parse --short HEAD), repo $(git -C /repo rev-parse --short HEAD))" > $out
+fi
 for s in $ids; do
   REPO_ROOT=$DET/repo VERIF_ROOT=$DET/verif VERIF_TAG="@regression" python3 /verif/lib/seedeval.py detect $s 2>&1 | tail -1 | cut -c1-300 >> $out
 done
 # changes whose demonstration targets one property but whose mechanism belongs to a sibling property
-declare -A SIB=( [C04-2B]=C09 [C06-2B]=C02 [C06-B]=C08 [C12-2B]=C11 [C06-3A]=C03 )
+declare -A SIB=( [C04-2B]=C09 [C06-2B]=C02 [C06-B]=C08 [C12-2B]=C11 [C06-3A]=C03 [C07-4A]=C01 )
 for s in "${!SIB[@]}"; do
   if echo " $ids " | grep -q " $s "; then
     REPO_ROOT=$DET/repo VERIF_ROOT=$DET/verif VERIF_TAG="@regression" python3 /verif/lib/seedeval.py detect $s ${SIB[$s]} 2>&1 | tail -1 | cut -c1-300 >> $out
   fi
 done
-echo "detected lines: $(grep -c "detected=True" $out) of $(grep -c "detected=" $out)"
+echo "detected lines: $(grep -c "detected=True" $out) of $(grep -c "detected=" $out)"  # (a change listed in SIB has two lines: own property, sibling)
